@@ -222,7 +222,9 @@ class AgilentFmt(Fmt):
         base = WIN + path.name + "\\"
         method = spec["method"]
         # "both_differ": a batch log AND an acquisition method that list the lines in different orders (the first method list
-        # of `load` must win); "none": neither (no collection method of `load` can read the batch)
+        # of `load` must win); "none": neither (no collection method of `load` can read the batch); "acq_empty_batchlog": an
+        # acquisition method and a batch log without entries (the first method list finds no data, and `load_info` finds no
+        # <BatchLogInfo> to read: AttributeError, not a ValueError)
         if method in ("batch_xml", "both_differ"):
             (path / "Method").mkdir()
             order = list(reversed(names)) if method == "both_differ" else names
@@ -231,7 +233,10 @@ class AgilentFmt(Fmt):
         if method == "batch_csv":
             gen_agilent.write_batch_csv(path / "BatchLog.csv", [{"id": i + 1, "file": base + nm, "result": "Pass"}
                                                                 for i, nm in enumerate(names)])
-        if method in ("acq_method_xml", "both_differ"):
+        if method == "acq_empty_batchlog":
+            (path / "Method").mkdir()
+            gen_agilent.write_batch_xml(path / "Method" / "BatchLog.xml", [], batch_name=path.name)
+        if method in ("acq_method_xml", "both_differ", "acq_empty_batchlog"):
             (path / "Method").mkdir(exist_ok=True)
             gen_agilent.write_acq_method(path / "Method" / "AcqMethod.xml",
                                          [{"name": nm, "mz": mz, "selected": mz} for nm, mz in spec["masses"]], False,
@@ -365,7 +370,7 @@ ODD = {
 def oddify(rng, spec):
     """turn an ordinary input into one of the dispatch classes"""
     if spec["fmt"] == "agilent" and rng.random() < 0.6:
-        spec["method"] = rng.choice(["both_differ", "both_differ", "none"])
+        spec["method"] = rng.choice(["both_differ", "both_differ", "none", "acq_empty_batchlog"])
         spec["odd"] = "agilent:" + spec["method"]
         return spec
     if spec["fmt"] in ODD:
@@ -391,7 +396,7 @@ def path_facts(path: Path):
     from pewlib.io import agilent, csv, perkinelmer, thermo
 
     f = {"exists": path.exists(), "is_dir": path.is_dir(), "perkin_valid": bool(perkinelmer.is_valid_directory(path)),
-         "csv_valid": bool(csv.is_valid_directory(path)), "info_fails": False}
+         "csv_valid": bool(csv.is_valid_directory(path)), "info": {"outcome": "ok"}}
     try:
         f["sniff"] = {"outcome": "ok", "format": str(thermo.icap_csv_sample_format(path))}
     except Exception as e:  # noqa: BLE001
@@ -399,10 +404,8 @@ def path_facts(path: Path):
     if f["is_dir"]:
         try:
             agilent.load_info(path)
-        except ValueError:
-            f["info_fails"] = True
-        except Exception:  # noqa: BLE001  (would end `load` as a crash; not generated)
-            pass
+        except Exception as e:  # noqa: BLE001
+            f["info"] = {"outcome": outcome_of(e)}
     return f
 
 
@@ -624,7 +627,7 @@ class C20(Prop):
                    "wrappers saw a call for that path; the Agilent collection-method list is a feature (agilent-methods-as-modelled), its effect is "
                    "compared through the data (batches whose methods disagree)",
                    "`io.agilent.load_info` raising ValueError (the loop then keeps the data in hand and tries the next method list) is in the model "
-                   "and the theorem but no generated batch makes it fail",
+                   "and the theorem but no generated batch makes it do so (a batch log without entries makes it raise AttributeError: generated)",
                    ]
 
     # ------------------------------------------------------------------ generator
@@ -820,7 +823,7 @@ class C20(Prop):
                 i += 1
                 yield self.build(rng, "quick", rng.choice(["convert", "convert", "filter"]), n=1, okind="omitted", format=".npz", mode="inproc",
                                  fmt=fmt, eqcount=False, large=False, missing_input=False, odd={"fields": {"suffix": suffix, "odd": cls}})
-        for method in ("both_differ", "none", "batch_xml", "batch_csv", "acq_method_xml"):
+        for method in ("both_differ", "none", "acq_empty_batchlog", "batch_xml", "batch_csv", "acq_method_xml"):
             for mode in ("inproc", "subproc"):
                 rng = random.Random(f"C20-targeted-agilent-{method}")
                 yield self.build(rng, "quick", "convert", n=1, okind="dir", format=".npz", mode=mode, fmt="agilent", eqcount=False,
@@ -1133,7 +1136,10 @@ class C20(Prop):
         def lname(x):
             return x["loader"] if "loader" in x else "fail"
         seen_by = [None if spy is None else spy.delivered(root / rel) for rel in run_rels]
-        impl["loaders"] = [None if d is None else d[0] for d in seen_by]
+        # (a load the model AND the specification call failed is compared through the exit status: the wrappers cannot see a
+        # failure of `load` that comes after a loader call that returned, e.g. of `load_info`)
+        failed = ["fail" in x and "fail" in y for x, y in zip(rep["model_loaders"], rep["spec_loaders"])]
+        impl["loaders"] = [None if d is None else "fail" if f else d[0] for d, f in zip(seen_by, failed)]
         # the model is asked only about inputs whose loading was observed (a run that fails earlier never reaches the others)
         model["loaders"] = [None if d is None else lname(x) for d, x in zip(seen_by, rep["model_loaders"])]
         spec_["loaders"] = [None if d is None else lname(x) for d, x in zip(seen_by, rep["spec_loaders"])]
